@@ -40,7 +40,10 @@ func (o *orbitDBDocumentStore) Get(_ context.Context, key string, opts *iface.Do
 
 	documents := []interface{}(nil)
 
-	for _, indexKey := range docIndex.Keys() {
+	// one reading of the index for the whole answer: keys listed at one moment and values
+	// read at later ones would mix the documents of several states when a write or a merge
+	// lands in between
+	for indexKey, value := range docIndex.snapshot() {
 		indexKeyForSearch := indexKey
 
 		if opts.CaseInsensitive {
@@ -60,18 +63,8 @@ func (o *orbitDBDocumentStore) Get(_ context.Context, key string, opts *iface.Do
 			}
 		}
 
-		value := o.Index().Get(indexKey)
-		if value == nil {
-			// deleted since the keys were listed: not one of the documents any more
-			continue
-		}
-
-		if _, ok := value.([]byte); !ok {
-			return nil, fmt.Errorf("invalid type for key %s", indexKey)
-		}
-
 		out := o.docOpts.ItemFactory()
-		if err := o.docOpts.Unmarshal(value.([]byte), &out); err != nil {
+		if err := o.docOpts.Unmarshal(value, &out); err != nil {
 			return nil, fmt.Errorf("unable to unmarshal value for key %s: %w", indexKey, err)
 		}
 
@@ -187,14 +180,9 @@ func (o *orbitDBDocumentStore) Query(_ context.Context, filter func(doc interfac
 	}
 
 	documents := []interface{}(nil)
-	for _, indexKey := range docIndex.Keys() {
-		doc := docIndex.Get(indexKey)
-		if doc == nil {
-			continue
-		}
-
+	for _, doc := range docIndex.snapshot() {
 		value := o.docOpts.ItemFactory()
-		if err := o.docOpts.Unmarshal(doc.([]byte), &value); err != nil {
+		if err := o.docOpts.Unmarshal(doc, &value); err != nil {
 			return nil, fmt.Errorf("unable to unmarshal document: %w", err)
 		}
 
